@@ -193,7 +193,7 @@ def check_data(datas, E, N, cfg, acc, only_call=None, only_commons=None):
 
 # ----------------------------------------------------------------------------- other legal representations of the same arguments
 REPR_CFG = dict(wl=1, Ks=[0, 2], fl=1, forms=["nan", "pair-huge", "int"], vals=["pow2"], wforms=False)
-REPR_KINDS = ["float32", "read-only", "fortran", "strided", "int-weights", "list-dims", "int32-dims", "loaded-dims"]
+REPR_KINDS = ["float32", "read-only", "fortran", "strided", "int-weights", "list-dims", "int32-dims", "loaded-dims", "appended-dims", "filtered-dims", "sliced-dims", "reindexed-dims", "shifted-dims"]
 
 
 def _each_array(arg, fn):
@@ -238,8 +238,42 @@ def represent(kind, f_arg, w_arg, denses, ws):
         return f_arg, w_arg, [d.tolist() for d in dims]
     if kind == "int32-dims":
         return f_arg, w_arg, [d.astype(numpy.int32) for d in dims]
+    if kind in ("appended-dims", "filtered-dims", "sliced-dims", "reindexed-dims", "shifted-dims"):
+        return f_arg, w_arg, dims      # the INDEX cube gets dimensions produced by a pipeline of index operations (see _pipeline)
     if kind == "loaded-dims":
         return f_arg, w_arg, dims      # the INDEX cube gets dimensions that went through IndxIO.save / load (read-only, file-backed row ids)
+    raise KeyError(kind)
+
+
+def _pipeline(kind, dense):
+    """The index of `dense` (a 1-D array) as the END of a pipeline of library operations, as an application would have it."""
+    from catii import iindexes
+    from catii.iindexes import iindex
+
+    n = len(dense)
+    if kind == "appended-dims":
+        k = n // 2
+        a = iindex.from_array(dense[:k], common=0) if k else iindex({}, 0, (0,))
+        a.append(iindex.from_array(dense[k:], common=1))
+        return a
+    if kind == "filtered-dims":
+        big = numpy.zeros(2 * n + 1, dtype=numpy.int64)
+        big[1::2][:n] = dense
+        big[0::2] = 2
+        mask = numpy.zeros(2 * n + 1, dtype=bool)
+        mask[1::2][:n] = True
+        return iindex.from_array(big).filtered(mask, int(mask.sum()))
+    if kind == "sliced-dims":
+        wide = numpy.column_stack([numpy.full(n, 1, dtype=numpy.int64), dense, (dense + 1) % 3])
+        return iindex.from_array(wide).sliced(1)
+    if kind == "reindexed-dims":
+        swapped = numpy.where(dense == 0, 1, numpy.where(dense == 1, 0, dense))
+        return iindex.from_array(swapped).reindexed({0: 1, 1: 0})
+    if kind == "shifted-dims":
+        ix = iindex.from_array(dense, common=2)
+        ix.shift_common()
+        ix.shift_common(1)
+        return ix
     raise KeyError(kind)
 
 
@@ -322,14 +356,16 @@ def check_repr(datas, E, N, acc, only_call=None, only_kind=None):
             f2, w2, xdims = rep
             case = {"repr": kind, "data": [list(t) for t in datas], "E": E, "agg": agg, "ignore": ignore, "weights": ws, "fact": fs}
             cdims = idx
-            if kind == "loaded-dims":
+            if kind.endswith("-dims") and kind not in ("list-dims", "int32-dims", "loaded-dims"):
+                cdims = [_pipeline(kind, d) for d in denses]
+            elif kind == "loaded-dims":
                 cdims = [_through_indx(ix) for ix in idx]
             elif kind in ("read-only", "strided"):
                 cdims = [_relayout(ix, kind) for ix in idx]
             for cube_kind, mk in (("xcube", lambda: xcube(xdims, interacting_shape=shape)), ("ccube", lambda: ccube(cdims, interacting_shape=shape))):
                 if cube_kind == "ccube" and kind in ("list-dims", "int32-dims"):
                     continue
-                if cube_kind == "xcube" and kind == "loaded-dims":
+                if cube_kind == "xcube" and kind.endswith("-dims") and kind not in ("list-dims", "int32-dims"):
                     continue
                 try:
                     v, m = Q.normalise(Q.call_cube(mk(), agg, f2, w2, ignore, Q.PAIR), Q.PAIR)
